@@ -1,6 +1,6 @@
 (* C16 - asphalt run: documented config precedence and deterministic service selection. *)
 From Coq Require Import String List Bool.
-From Asphalt Require Import Config.Val Config.MergeSpec Config.MergeProofs Config.CliModel Config.CliProofs.
+From Asphalt Require Import Config.Val Config.MergeSpec Config.MergeProofs Config.CliModel Config.CliProofs Gen.Gen_cli.
 Import ListNotations.
 Open Scope string_scope.
 Open Scope list_scope.
@@ -74,3 +74,16 @@ Theorem C16_final : forall files ovs flag env l,
     l_options l = remove "backend_options" (remove "backend" (remove "component" (merge (Some top) osvc))).
 Proof. exact cli_launch_shape. Qed.
 Print Assumptions C16_final.
+
+(* _cli.run as read from the source on this run (the model's precedences are computed from it): the files in
+   order, a later one over an earlier one; then the --set overrides, each split at its FIRST `=`, its key at
+   unescaped dots, missing sections created; the service named by the flag before the one named by the
+   environment variable; the selection ladder; the selected service merged OVER the top level *)
+Theorem C16_run_in_source :
+  cli_steps_in_documented_order = true /\ cli_later_file_wins = true /\
+  cli_override_split_at_first_equals = true /\ cli_key_split_at_unescaped_dots = true /\
+  cli_missing_sections_created = true /\ cli_flag_beats_env = true /\
+  cli_selection_ladder_as_documented = true /\ cli_service_overrides_top_level = true /\
+  cli_default_backend_is_asyncio = true.
+Proof. exact cli_source_shape. Qed.
+Print Assumptions C16_run_in_source.
